@@ -217,7 +217,13 @@ def acceptKinds : Nat → List Char → Bool
   | fuel + 1, 'T' :: 'W' :: 'F' :: rest => acceptKinds fuel rest
   | fuel + 1, 'W' :: 'W' :: 'W' :: 'W' :: 'W' :: 'W' :: 'F' :: rest =>
     acceptKinds fuel (rest.dropWhile (· == 'P'))
-  | _, _ => false
+  -- the recorded process may end in the MIDDLE of the loop's last event: a proper prefix of an
+  -- event's kinds is accepted at the very end of the trace
+  | _, rest =>
+    rest.length < 7 &&
+      ((['W', 'S', 'W', 'T', 'W', 'F'].take rest.length == rest) ||
+       (['T', 'W', 'F'].take rest.length == rest) ||
+       (['W', 'W', 'W', 'W', 'W', 'W', 'F'].take rest.length == rest))
 
 def walacceptOp : Op := fun args =>
   match args with
